@@ -27,7 +27,7 @@ RULE = (
     "GreensFunctionCache on one persistent directory, reopen (new cache object), truncate(entry, fraction), zero_length(entry), "
     "drop a junk file, clear(). Requests = a base footprint request and every single-argument variant of the solver signature "
     "(source values, source shape, z, each of the five profiles, domain, levels scalar/list, modes, meas_pt, background, footprint "
-    "flag, analytic flag, halo None / explicit-equal-to-default / other / 0, precision, and last-digit changes of meas_pt and Kz). Model: memo of uncached results; map entry "
+    "flag, analytic flag, halo None / explicit-equal-to-default / other / 0, precision, last-digit changes of meas_pt and Kz) plus generated ordered level selections of 1..4 levels. Model: memo of uncached results; map entry "
     "file -> (request, intact). Invariants after every step: a cached solve returns exactly the uncached result (array_equal, "
     "dtypes, grids); a request whose entry file is intact is a hit with no put; no solve raises, whatever files are damaged. "
     "Enumerated part: for each request kind a stored entry is truncated at sampled (quick) or every (thorough) byte offset and "
@@ -100,6 +100,20 @@ def _variants():
 
 REQUESTS = _variants()
 NAMES = [n for n, _ in REQUESTS]
+_DYN = {}
+
+
+def request_for_levels(lv):
+    """Generated requests: the base request with an arbitrary ordered selection of output levels
+    (registered on first use; the registry is a pure function of the selections seen)."""
+    key = tuple(int(v) for v in lv)
+    if key not in _DYN:
+        r = dict(_base())
+        r["levels"] = list(key)
+        REQUESTS.append((f"levels={list(key)}", r))
+        NAMES.append(f"levels={list(key)}")
+        _DYN[key] = len(REQUESTS) - 1
+    return _DYN[key]
 
 
 def _solve(req, cache=None):
@@ -185,6 +199,8 @@ class History:
         kind = op[0]
         if kind == "solve":
             return self._solve(op[1])
+        if kind == "solve_levels":
+            return self._solve(request_for_levels(op[1]))
         if kind == "reopen":
             self.cache = _recording_cache(self.dir, self.log)
             self.flags.add("reopen")
@@ -240,7 +256,7 @@ class History:
         puts = [e for e in self.log if e[0] == "put"]
         if diff:
             fails.append(f"solve({name}) with the cache attached ({'hit' if hit else 'miss'}) differs from the uncached result: {diff} "
-                         f"(history: {[NAMES[s[1]] if s[0] == 'solve' else s[0] for s in self.steps]})")
+                         f"(history: {[NAMES[s[1]] if s[0] == 'solve' else (f'levels={s[1]}' if s[0] == 'solve_levels' else s[0]) for s in self.steps]})")
         if expect_hit and (not hit or puts):
             fails.append(f"solve({name}) repeated with its entry intact was not served from the cache "
                          f"(log {self.log}; halo argument {req['halo']!r})")
@@ -296,6 +312,14 @@ def machine(tier, stats, last_fail):
         @rule(i=st.sampled_from([0, 0, 10, 11, 15, 17, 18]))
         def solve_common(self, i):
             self._do(["solve", i])
+
+        @rule(lv=st.lists(st.integers(0, 5), min_size=1, max_size=4, unique=True))
+        def solve_levels(self, lv):
+            self._do(["solve_levels", lv])
+
+        @rule(lv=st.permutations([1, 2, 4]))
+        def solve_three_levels(self, lv):
+            self._do(["solve_levels", list(lv)])
 
         @rule()
         def reopen(self):
